@@ -1,1 +1,168 @@
--- property theorems for C20 (stub)
+import RP.Model.Sampler
+import Mathlib.Tactic.Linarith
+import Mathlib.Algebra.Order.Field.Rat
+import Mathlib.Algebra.BigOperators.Group.List.Basic
+import Mathlib.Algebra.Order.BigOperators.Group.List
+/-! # C20 — seeded sampling is a function of (epoch, information set) and unbiased
+
+What a theorem can carry (see DESIGN.md §6 C20):
+
+* the model's sampled branch is a *function* of `(epoch, bucket, weights)` only — the model has no
+  other input (no thread, time, tree or address), stated as congruence lemmas; the model is
+  bit-exact (SipHash-1-3, SplitMix64, Xoshiro256++, rand's `gen_range` and `WeightedIndex<f32>`),
+  so the correspondence run *predicts* the real choice and any hidden input in the real code
+  shows up as a disagreement;
+* the inverse-CDF selection used by `WeightedIndex` picks index `i` exactly on an interval of
+  length `wᵢ`: with a uniform variate the draw is unbiased (`C20_pick_interval`), and the index is
+  always in range (`C20_pick_lt`).
+
+What it cannot exhibit: thread identity, scheduling, randomly keyed hashing. That part is explored
+by the harness (same answers from many threads / trees / repetitions). PRNG quality is trusted. -/
+namespace RP.C20
+open RP.Sampler
+
+/-- the selection over exact rationals: same `cums` / `partitionPoint` the driver runs on `Float32` -/
+def pick (ws : List ℚ) (x : ℚ) : Nat :=
+  match ws with
+  | [] => 0
+  | w :: ws => partitionPoint (cums w ws) x
+
+theorem take_sum_nonneg (ws : List ℚ) (hnn : ∀ w ∈ ws, 0 ≤ w) (k : Nat) : 0 ≤ (ws.take k).sum :=
+  List.sum_nonneg (fun v hv => hnn v (List.mem_of_mem_take hv))
+
+theorem pp_cums_iff : ∀ (ws : List ℚ) (t x : ℚ) (i : Nat), (∀ w ∈ ws, 0 ≤ w) → i ≤ ws.length →
+    (partitionPoint (cums t ws) x = i ↔
+      (i = 0 ∨ t + (ws.take (i - 1)).sum ≤ x) ∧ (i = ws.length ∨ x < t + (ws.take i).sum)) := by
+  intro ws
+  induction ws with
+  | nil =>
+    intro t x i _ hi
+    have : i = 0 := by simpa using hi
+    subst this
+    simp [cums, partitionPoint]
+  | cons w ws ih =>
+    intro t x i hnn hi
+    have hw : 0 ≤ w := hnn w (by simp)
+    have hnn' : ∀ w ∈ ws, 0 ≤ w := fun v hv => hnn v (by simp [hv])
+    simp only [cums, partitionPoint]
+    cases i with
+    | zero =>
+      by_cases h : t ≤ x
+      · simp [h]
+      · simp [h]; linarith
+    | succ j =>
+      have hj : j ≤ ws.length := by simpa using hi
+      have IH := ih (t + w) x j hnn' hj
+      have hs := take_sum_nonneg ws hnn'
+      by_cases h : t ≤ x
+      · simp only [h, if_true, Nat.add_right_cancel_iff]
+        rw [IH]
+        cases j with
+        | zero =>
+          simp
+          constructor
+          · rintro (a | a)
+            · exact ⟨h, Or.inl (List.eq_nil_of_length_eq_zero a.symm)⟩
+            · exact ⟨h, Or.inr a⟩
+          · rintro ⟨_, (a | a)⟩
+            · left; simp [a]
+            · right; exact a
+        | succ k =>
+          simp [add_assoc]
+      · simp only [h, if_false]
+        simp
+        intro a
+        have := take_sum_nonneg (w :: ws) hnn j
+        linarith
+
+/-- **Interval lemma** (unbiasedness): for non-negative weights and `0 ≤ x < total`, index `i` is
+    picked exactly when `x` lies in `[w₀+…+wᵢ₋₁, w₀+…+wᵢ)`, an interval of length `wᵢ`. -/
+theorem C20_pick_interval (ws : List ℚ) (hnn : ∀ w ∈ ws, 0 ≤ w) (x : ℚ) (hx0 : 0 ≤ x)
+    (hx : x < ws.sum) (i : Nat) (hi : i < ws.length) :
+    pick ws x = i ↔ (ws.take i).sum ≤ x ∧ x < (ws.take (i + 1)).sum := by
+  cases ws with
+  | nil => simp at hi
+  | cons w ws =>
+    have hnn' : ∀ v ∈ ws, 0 ≤ v := fun v hv => hnn v (by simp [hv])
+    have hi' : i ≤ ws.length := by simpa [Nat.lt_succ_iff] using hi
+    simp only [pick]
+    rw [pp_cums_iff ws w x i hnn' hi']
+    simp only [List.take_succ_cons, List.sum_cons] at hx ⊢
+    cases i with
+    | zero =>
+      simp only [List.take_zero, List.sum_nil, add_zero, true_or, true_and]
+      constructor
+      · rintro (h | h)
+        · have : ws = [] := List.eq_nil_of_length_eq_zero h.symm
+          subst this; exact ⟨hx0, by simpa using hx⟩
+        · exact ⟨hx0, h⟩
+      · rintro ⟨_, h⟩; right; exact h
+    | succ j =>
+      simp only [Nat.add_sub_cancel, List.take_succ_cons, List.sum_cons, Nat.succ_ne_zero, false_or]
+      constructor
+      · rintro ⟨a, (b | b)⟩
+        · have : List.take (j + 1) ws = ws := List.take_of_length_le (by omega)
+          rw [this]; exact ⟨a, hx⟩
+        · exact ⟨a, b⟩
+      · rintro ⟨a, b⟩; exact ⟨a, Or.inr b⟩
+
+theorem pp_le_length {α : Type} [LE α] [DecidableRel (α := α) (· ≤ ·)] (cs : List α) (x : α) :
+    partitionPoint cs x ≤ cs.length := by
+  induction cs with
+  | nil => simp [partitionPoint]
+  | cons c cs ih =>
+    simp only [partitionPoint, List.length_cons]
+    split
+    · omega
+    · omega
+
+theorem cums_length {α : Type} [Add α] (t : α) (ws : List α) : (cums t ws).length = ws.length := by
+  induction ws generalizing t with
+  | nil => rfl
+  | cons w ws ih => simp [cums, ih]
+
+/-- the picked index is always a valid branch index, for any chosen value (no out-of-range branch) -/
+theorem C20_pick_lt (ws : List ℚ) (hne : ws ≠ []) (x : ℚ) : pick ws x < ws.length := by
+  cases ws with
+  | nil => exact absurd rfl hne
+  | cons w ws =>
+    simp only [pick, List.length_cons]
+    have := pp_le_length (cums w ws) x
+    rw [cums_length] at this
+    omega
+
+/-- the same on the `Float32` instance the driver runs (whatever the floats are) -/
+theorem C20_partitionPoint_f32_lt (w : Float32) (ws : List Float32) (x : Float32) :
+    partitionPoint (cums w ws) x < (w :: ws).length := by
+  have := pp_le_length (cums w ws) x
+  rw [cums_length] at this
+  simp only [List.length_cons]; omega
+
+/-- **Reproducibility of the model**: the sampled opponent branch is a function of the epoch, the
+    bucket and the weights at that bucket — equal keys give equal choices. (The model has no other
+    input; that the *code* has none is what the correspondence run checks.) -/
+theorem C20_exploreOne_congr (e₁ e₂ p₁ p₂ d₁ d₂ a₁ a₂ f₁ f₂ : Nat) (w₁ w₂ : List Float32)
+    (he : e₁ = e₂) (hp : p₁ = p₂) (hd : d₁ = d₂) (ha : a₁ = a₂) (hf : f₁ = f₂) (hw : w₁ = w₂) :
+    exploreOne e₁ p₁ d₁ a₁ f₁ w₁ = exploreOne e₂ p₂ d₂ a₂ f₂ w₂ := by
+  subst he hp hd ha hf hw; rfl
+
+theorem C20_exploreAny_congr (e₁ e₂ p₁ p₂ d₁ d₂ a₁ a₂ f₁ f₂ n₁ n₂ : Nat)
+    (he : e₁ = e₂) (hp : p₁ = p₂) (hd : d₁ = d₂) (ha : a₁ = a₂) (hf : f₁ = f₂) (hn : n₁ = n₂) :
+    exploreAny e₁ p₁ d₁ a₁ f₁ n₁ = exploreAny e₂ p₂ d₂ a₂ f₂ n₂ := by
+  subst he hp hd ha hf hn; rfl
+
+/-- centroid seeding is a function of (street, k, points) -/
+theorem C20_kmeansInit_congr (s₁ s₂ k₁ k₂ : Nat) (p₁ p₂ : List (Nat × List Nat))
+    (hs : s₁ = s₂) (hk : k₁ = k₂) (hp : p₁ = p₂) : kmeansInit s₁ k₁ p₁ = kmeansInit s₂ k₂ p₂ := by
+  subst hs hk hp; rfl
+
+-- non-vacuity: weights 1/2, 1/4, 1/4; x = 0.6 falls in the second interval [1/2, 3/4)
+example : pick [1/2, 1/4, 1/4] (3/5) = 1 := by
+  have hnn : ∀ w ∈ ([1/2, 1/4, 1/4] : List ℚ), 0 ≤ w := by
+    intro w hw
+    simp only [List.mem_cons, List.not_mem_nil, or_false] at hw
+    rcases hw with rfl | rfl | rfl <;> norm_num
+  rw [C20_pick_interval _ hnn _ (by norm_num) (by norm_num) 1 (by simp)]
+  norm_num
+
+end RP.C20
